@@ -36,7 +36,9 @@ def cases(draw):
     # the exporting object is an SgzReader: it may be opened with preload and may have served other calls first
     before = draw(st.lists(st.sampled_from(["gen_trace_header", "get_tracefield_values", "get_trace", "convert_to_segy"]),
                            max_size=3)) if draw(st.integers(0, 2)) == 0 else []
+    prior = draw(st.integers(0, 2 ** 16)) if draw(st.integers(0, 3)) == 0 else None
     return {"src": src, "setting": {"rate": rate, "blockshape": list(bs)}, "mode": mode, "before": before,
+            **({"prior": prior} if prior is not None else {}),
             "preload": draw(st.sampled_from([False, False, True])), "u": [draw(st.floats(0, 1, exclude_max=True)) for _ in range(3)],
             "via": draw(st.sampled_from(["api", "api", "cli"]))}
 
@@ -45,6 +47,13 @@ def run_case(case, ctx):
     from seismic_zfp.read import SgzReader
     from seismic_zfp.conversion import SgzConverter
     d = ctx.tmp()
+    if case.get("prior") is not None and case["src"]["geom"] != "irregular":
+        # an earlier conversion in this process of a survey of the same geometry with constant free header
+        # fields, stored under the same file name
+        pdesc = dict(case["src"], fields={}, values={"kind": "gauss", "vseed": case["prior"]}, text_seed=case["prior"] % 997)
+        P = sources.build(pdesc, d)
+        conv.segy_convert(P.path, os.path.join(d, "prior.sgz"), case["setting"]["rate"], tuple(case["setting"]["blockshape"]),
+                          header_detection=case["mode"])
     S = sources.build(case["src"], d)
     sources.annotate(case, S)
     geom = case["src"]["geom"]
